@@ -1,2 +1,61 @@
-use crate::NativeBody;
-pub fn register(_v: &mut Vec<(&'static str, NativeBody)>) {}
+//! C36 — a bloom filter never loses an inserted key (real BloomFilter + real SipHash DefaultHasher).
+use crate::{cover, harness, NativeBody, NativeSrc, Src};
+use inputlayer::bloom_filter::BloomFilter;
+
+#[derive(Hash)]
+pub struct Key(pub u64);
+
+fn laws<S: Src>(s: &mut S, bits: usize, hashes: usize, two: bool) -> Result<(), String> {
+    let mut f = BloomFilter::with_params(bits, hashes);
+    let k1 = Key(s.u64());
+    let k2 = Key(s.u64());
+    f.insert(&k1);
+    if two {
+        f.insert(&k2);
+    }
+    let mut r = Ok(());
+    if !f.might_contain(&k1) {
+        r = Err(String::from("inserted key reported absent"));
+    } else if two && !f.might_contain(&k2) {
+        r = Err(String::from("second inserted key reported absent"));
+    } else if f.len() != if two { 2 } else { 1 } {
+        r = Err(String::from("len does not count inserts"));
+    } else {
+        f.clear();
+        if !f.is_empty() {
+            r = Err(String::from("clear leaves elements"));
+        }
+        f.insert(&k2);
+        if !f.might_contain(&k2) {
+            r = Err(String::from("key inserted after clear reported absent"));
+        }
+    }
+    cover!(r.is_ok(), "laws reached");
+    std::mem::forget(f);
+    r
+}
+
+macro_rules! bloom {
+    ($h:ident, $b:ident, $bits:expr, $hashes:expr, $two:expr, $u:expr) => {
+        pub fn $b<S: Src>(s: &mut S) -> Result<(), String> {
+            laws(s, $bits, $hashes, $two)
+        }
+        harness!($h, $b, $u);
+    };
+}
+// (num_bits, num_hashes): degenerate 0/0 (clamped to 64/1), one word, just over one word, many hashes
+bloom!(c36_bloom_0_0, b_bloom_0_0, 0, 0, false, 4);
+bloom!(c36_bloom_64_2, b_bloom_64_2, 64, 2, true, 4);
+bloom!(c36_bloom_65_1, b_bloom_65_1, 65, 1, true, 4);
+bloom!(c36_bloom_128_3, b_bloom_128_3, 128, 3, false, 5);
+bloom!(c36_bloom_1000_2, b_bloom_1000_2, 1000, 2, false, 18);
+bloom!(c36_bloom_64_7, b_bloom_64_7, 64, 7, false, 9);
+
+pub fn register(v: &mut Vec<(&'static str, NativeBody)>) {
+    v.push(("c36_bloom_0_0", b_bloom_0_0::<NativeSrc>));
+    v.push(("c36_bloom_64_2", b_bloom_64_2::<NativeSrc>));
+    v.push(("c36_bloom_65_1", b_bloom_65_1::<NativeSrc>));
+    v.push(("c36_bloom_128_3", b_bloom_128_3::<NativeSrc>));
+    v.push(("c36_bloom_1000_2", b_bloom_1000_2::<NativeSrc>));
+    v.push(("c36_bloom_64_7", b_bloom_64_7::<NativeSrc>));
+}
